@@ -184,6 +184,48 @@ pub fn rng_case(ctx: &Ctx, i: usize, id: String) -> Case {
     c
 }
 
+/// 66 000 entropy requests on one driver instance (oracles only): the ring indices wrap on the way and
+/// every request must still come back with what the device wrote
+pub fn rng_wrap_case(ctx: &Ctx, i: usize, id: String) -> Case {
+    let mut c = Case::new(id);
+    let mut rng = ctx.case_rng("rng-wrap", i);
+    let plan = Box::new(move |_rd: &[Vec<u8>], wr: &[usize], r: &mut Rng| {
+        let room: usize = wr.iter().sum();
+        (r.bytes(room), room as u32)
+    });
+    let (t, st, dev) = setup(&mut rng, DeviceType::EntropySource, vec![], plan);
+    let mut drv = match guarded(|| VirtIORng::<LedgerHal, ModelTransport>::new(t)) {
+        Ok(Ok(d)) => d,
+        other => {
+            c.fail(format!("VirtIORng::new failed: {:?}", other.map(|r| r.map(|_| ()))));
+            return c;
+        }
+    };
+    dev.borrow_mut().event_idx = st.borrow().driver_features & F_EVENT_IDX != 0;
+    for k in 0..66_000u32 {
+        super::reset_spin_count();
+        let mut dst = [0x11u8; 8];
+        dev.borrow_mut().seen.clear();
+        let r = guarded(|| drv.request_entropy(&mut dst));
+        let seen = dev.borrow().seen.clone();
+        match (&r, seen.first()) {
+            (Ok(Ok(8)), Some(s)) if s.written[..] == dst[..] => {}
+            other => {
+                c.fail(format!("long run: entropy request {} returned {:?} (device wrote {:?})", k, other.0.as_ref().map(|x| x.as_ref().map_err(|e| format!("{:?}", e))), other.1.map(|s| s.written.len())));
+                break;
+            }
+        }
+        let _ = crate::hal::take_events();
+    }
+    c.tag("rng-wrap");
+    c.nontrivial = true;
+    super::clear_spin();
+    st.borrow_mut().on_notify = None;
+    let _ = guarded(move || drop(drv));
+    let _ = crate::hal::take_events();
+    c
+}
+
 pub fn rtc_case(ctx: &Ctx, i: usize, id: String) -> Case {
     let mut c = Case::new(id);
     let mut rng = ctx.case_rng("rtc", i);
